@@ -170,7 +170,7 @@ JUDGES = {"lib": judge_lib, "cli": judge_cli}
 def shards(tier, seed):
     T = tier == "thorough"
     return [{"name": "lib-%d" % i, "count": 4000 if T else 350} for i in range(6)] + \
-           [{"name": "cli-%d" % i, "count": 700 if T else 80, "first": i == 0} for i in range(16)]
+           [{"name": "cli-%d" % i, "count": 1500 if T else 80, "first": i == 0} for i in range(16)]
 
 
 def _tx_with_chain(rng, c, kind=None):
